@@ -33,13 +33,14 @@ class Semaphore {
 
     //! 请求资源，注意：只能是协程调用
     bool acquire () {
-        if (count_ == 0) {      //! 如果没有资源，则等待
+        //! 如果没有资源，则等待
+        //! 注意：被唤醒后资源可能已被别的协程取走，这时要重新排队再等。
+        //! 因为 release() 唤醒时已将本协程的 token 从 token_ 中取出了
+        while (count_ == 0) {
             token_.push(sch_.getToken());
-            do {
-                sch_.wait();
-                if (sch_.isCanceled())
-                    return false;
-            } while (count_ == 0);
+            sch_.wait();
+            if (sch_.isCanceled())
+                return false;
         }
 
         --count_;
